@@ -108,7 +108,6 @@ def sprint : Val → Option Bytes
   | .float f => FOps.fmt f
   | .str s => some s
   | .list xs => (sprintList xs).map (fun ss => strBytes "[" ++ joinBytes (strBytes " ") ss ++ strBytes "]")
-  | .err m => some (strBytes m)
   | _ => none
 def sprintList : List Val → Option (List Bytes)
   | [] => some []
